@@ -707,4 +707,85 @@ Definition ext_probes : list probe := [
     "N: M,RangeError: q"
 ].
 
-Definition all_probes : list probe := (probes ++ ext_probes)%list.
+(* "each standard OBJECT is of the specified kind": behavioural probes of the
+   internal methods, which no shape dump can see.  ES5 makes several prototype
+   objects instances of their own kind: Array.prototype is itself an array
+   (15.4.4: index writes grow length, length writes truncate, length = -1 is a
+   RangeError, [[DefineOwnProperty]] of 15.4.5.1), Function.prototype is a
+   function that accepts anything and returns undefined (15.3.4),
+   String.prototype is a String object with value "" (15.5.4), Boolean/Number
+   .prototype wrap false / +0 (15.6.4, 15.7.4), Date.prototype is a Date (its
+   methods accept it and setTime works on it, 15.9.5), RegExp.prototype is a
+   RegExp (15.10.6), the Error prototypes (15.11.4, 15.11.7.7); Math and JSON
+   are neither callable nor constructors (15.8, 15.12); plus the exotic
+   behaviour of the instances the dynamic constructors make (10.6 arguments
+   mapping, 15.4.5.1 arrays, 15.5.5.2 String objects, 13.2.2/15.3.5.3
+   functions, 15.3.4.5 bound functions).  Every probe leaves the runtime as it
+   found it.  These run in EVERY history of the correspondence run (fresh,
+   underscore, Copy(), copy of a copy, ...). *)
+Definition kind_probes : list probe := [
+  P "kind:Array.prototype"
+    "(function(){var P=Array.prototype,r=[];P[3]='x';r.push(P.length,[].hasOwnProperty(3),[][3]);P.length=1;r.push(P.length,3 in P);var t;try{P.length=-1;t='no'}catch(e){t=e instanceof RangeError}r.push(t);Object.defineProperty(P,'2',{value:7,configurable:true,writable:true,enumerable:true});r.push(P.length);P.length=0;r.push(P.length,2 in P,Object.getOwnPropertyNames(P).indexOf('2'));return r.join()})()"
+    "4,false,x,1,false,true,3,0,false,-1";
+  P "kind:Array.prototype.methods"
+    "(function(){var P=Array.prototype,r=[];r.push(P.push('a','b'),P.length,P[1]);r.push(P.pop(),P.length);P.length=0;r.push(P.length,0 in P,P.join('-')==='',Array.isArray(P),P.concat(1).length);return r.join()})()"
+    "2,2,b,b,1,0,false,true,true,1";
+  P "kind:Function.prototype"
+    "[typeof Function.prototype,String(Function.prototype()),String(Function.prototype(1,2)),String(Function.prototype.call(null,3)),String(Function.prototype.apply({},[4])),Function.prototype.length,typeof Function.prototype.toString(),typeof Function.prototype.bind(null),Object.prototype.toString.call(Function.prototype)].join()"
+    "function,undefined,undefined,undefined,undefined,0,string,function,[object Function]";
+  P "kind:String.prototype"
+    "[String.prototype.valueOf()==='',String.prototype.toString()==='',String.prototype.length,String.prototype.charAt(0)==='',String.prototype+'x',String.prototype.concat('a'),Object.prototype.toString.call(String.prototype),(function(){String.prototype.length=5;return String.prototype.length})(),'0' in String.prototype,typeof String.prototype].join()"
+    "true,true,0,true,x,a,[object String],0,false,object";
+  P "kind:Boolean.prototype"
+    "[Boolean.prototype.valueOf(),Boolean.prototype.toString(),typeof Boolean.prototype.valueOf(),Boolean.prototype==false,Object.prototype.toString.call(Boolean.prototype),typeof Boolean.prototype].join()"
+    "false,false,boolean,true,[object Boolean],object";
+  P "kind:Number.prototype"
+    "[Number.prototype.valueOf(),1/Number.prototype.valueOf(),Number.prototype.toString(),Number.prototype.toFixed(2),Number.prototype+1,Object.prototype.toString.call(Number.prototype),typeof Number.prototype].join()"
+    "0,Infinity,0,0.00,1,[object Number],object";
+  P "kind:Date.prototype"
+    "(function(){var P=Date.prototype,o=P.getTime(),r=[Object.prototype.toString.call(P),typeof o,typeof P.valueOf()];var t;try{P.getTime.call({});t='no'}catch(e){t=e instanceof TypeError}r.push(t);r.push(P.setTime(5),P.getTime(),P.getUTCMilliseconds());P.setTime(o);r.push(P.getTime()===o||(o!==o&&P.getTime()!==P.getTime()));return r.join()})()"
+    "[object Date],number,number,true,5,5,5,true";
+  P "kind:RegExp.prototype"
+    "(function(){var P=RegExp.prototype,r=[Object.prototype.toString.call(P)];try{r.push(P.test(''))}catch(e){r.push('threw '+e.name)}try{r.push(P.exec('abc')[0]==='')}catch(e){r.push('threw '+e.name)}try{r.push(P.toString())}catch(e){r.push('threw '+e.name)}return r.join()})()"
+    "[object RegExp],true,true,/(?:)/";
+  P "kind:Error.prototype"
+    "[Object.prototype.toString.call(Error.prototype),Error.prototype.toString(),Error.prototype.name,Error.prototype.message==='',Error.prototype instanceof Error,TypeError.prototype instanceof Error,TypeError.prototype.toString(),TypeError.prototype.name,RangeError.prototype.message===''].join()"
+    "[object Error],Error,Error,true,false,true,TypeError,TypeError,true";
+  P "kind:Object.prototype"
+    "[Object.getPrototypeOf(Object.prototype)===null,Object.prototype.toString(),Object.isExtensible(Object.prototype),Object.prototype.valueOf()===Object.prototype,typeof Object.prototype].join()"
+    "true,[object Object],true,true,object";
+  P "kind:Math"
+    "(function(){var a,b;try{Math();a='no'}catch(e){a=e instanceof TypeError}try{new Math;b='no'}catch(e){b=e instanceof TypeError}return [a,b,typeof Math,Object.prototype.toString.call(Math),Object.isExtensible(Math)].join()})()"
+    "true,true,object,[object Math],true";
+  P "kind:JSON"
+    "(function(){var a,b;try{JSON();a='no'}catch(e){a=e instanceof TypeError}try{new JSON;b='no'}catch(e){b=e instanceof TypeError}return [a,b,typeof JSON,Object.prototype.toString.call(JSON),Object.isExtensible(JSON)].join()})()"
+    "true,true,object,[object JSON],true";
+  P "kind:global"
+    "[typeof this,this===(function(){return this})(),this.Object===Object,(function(){return typeof this.parseInt})(),this.NaN!==this.NaN,this.undefined===void 0].join()"
+    "object,true,true,function,true,true";
+  P "kind:arguments"
+    "(function(a,b){arguments[0]=9;var x=a;a=7;var y=arguments[0];arguments.length=5;return [x,y,arguments.length,b===undefined,arguments[1]===undefined,Object.prototype.toString.call(arguments)].join()})(1)"
+    "9,7,5,true,true,[object Arguments]";
+  P "kind:array"
+    "(function(){var a=[1,2,3];a[5]=1;var r=[a.length];a.length=2;r.push(a.length,2 in a);try{a.length=-1;r.push('no')}catch(e){r.push(e instanceof RangeError)}Object.defineProperty(a,'7',{value:1});r.push(a.length);return r.join()})()"
+    "6,2,false,true,8";
+  P "kind:String"
+    "(function(){var s=new String('ab');s[0]='z';s.length=9;return [s[0],s.length,s[5]===undefined,Object.keys(s).join(''),delete s[0],s[0]].join()})()"
+    "a,2,true,01,false,a";
+  P "kind:function"
+    "(function(){function K(){}var k=new K;var r=[k instanceof K,Object.getPrototypeOf(k)===K.prototype,K.prototype.constructor===K];K.prototype={};r.push(k instanceof K,new K instanceof K);K.length=7;r.push(K.length);return r.join()})()"
+    "true,true,true,false,true,0";
+  P "kind:bound"
+    "(function(){function K(a,b){this.s=a+b}var B=K.bind(null,1);var o=new B(2);return [o.s,o instanceof K,o instanceof B,B.length,typeof B].join()})()"
+    "3,true,true,1,function";
+  P "kind:ctors-as-functions"
+    "[Object.prototype.toString.call(Object()),Object.prototype.toString.call(Array()),Object.prototype.toString.call(Function()),typeof String(),typeof Number(),typeof Boolean(),Object.prototype.toString.call(RegExp('a')),Object.prototype.toString.call(Error()),Object.prototype.toString.call(new Date(0)),Object.prototype.toString.call(new String('')),Object.prototype.toString.call(new Number(0)),Object.prototype.toString.call(new Boolean(false))].join()"
+    "[object Object],[object Array],[object Function],string,number,boolean,[object RegExp],[object Error],[object Date],[object String],[object Number],[object Boolean]"
+].
+
+Definition all_probes : list probe := (probes ++ ext_probes ++ kind_probes)%list.
+
+(* the standard objects that must have a kind probe *)
+Definition kind_required : list string :=
+  ["Object.prototype"; "Function.prototype"; "Array.prototype"; "String.prototype"; "Boolean.prototype";
+   "Number.prototype"; "Date.prototype"; "RegExp.prototype"; "Error.prototype"; "Math"; "JSON"; "global"].
